@@ -1610,6 +1610,147 @@ def process_history_stream(ctx, n_layouts, tag="proc", model=None):
 
 
 # ---------------------------------------------------------------------------------------------------------------
+# Discovery through the load_git entry point: the package of a Git reference, whatever the current directory holds
+# ---------------------------------------------------------------------------------------------------------------
+def gen_git_project(rng):
+    """{relative path: text at the tag}, {relative path: text in the working tree (None = deleted)}, search path, flat?"""
+    flat = rng.random() < 0.7
+    root = "" if flat else "src/"
+    files = {root + "aa/__init__.py": None, root + "aa/m.py": None}
+    if rng.random() < 0.3:
+        del files[root + "aa/__init__.py"]                      # a namespace package
+    if rng.random() < 0.7:
+        files[root + "aa/sub/__init__.py"] = None
+        files[root + "aa/sub/x.py"] = None
+        if rng.random() < 0.4:
+            files[root + "aa/sub/deep/__init__.py"] = None
+            files[root + "aa/sub/deep/y.py"] = None
+    if rng.random() < 0.4:
+        files[root + "aa/n.pyi"] = None
+    if rng.random() < 0.3:
+        files[root + "aa/noinit/z.py"] = None
+    if rng.random() < 0.3:
+        files[root + "bb.py"] = None
+    tag = {f: f"ORIGIN = 'tag:{f}'\n" for f in files}
+    work = {}
+    for f in files:
+        r = rng.random()
+        work[f] = None if (r < 0.15 and not f.endswith("__init__.py")) else f"ORIGIN = 'working tree:{f}'\nEXTRA = 1\n"
+    work[root + "aa/only_in_working_tree.py"] = "ORIGIN = 'working tree only'\n"
+    return tag, work, ("." if flat else "src"), flat
+
+
+def expected_git_modules(tag, search):
+    """{dotted name: text} of what the tagged tree holds below the search path, by the import system's rules for these simple trees"""
+    pre = "" if search == "." else search + "/"
+    out = {}
+    dirs_with_init = {os.path.dirname(f) for f in tag if os.path.basename(f).startswith("__init__.")}
+    top_ns = (pre + "aa") not in dirs_with_init
+    for f, text in tag.items():
+        if not f.startswith(pre + "aa/"):
+            continue
+        relparts = f[len(pre):].split("/")
+        folder = pre + "/".join(relparts[:-1])
+        # every folder between the package and the file must be a regular package (below a namespace top: or the top itself)
+        ok = True
+        for k in range(2, len(relparts)):
+            d = pre + "/".join(relparts[:k])
+            if d not in dirs_with_init:
+                ok = False
+        if not ok:
+            continue
+        stem = relparts[-1].split(".")[0]
+        name = ".".join(relparts[:-1] if stem == "__init__" else relparts[:-1] + [stem])
+        if name in out and relparts[-1].endswith(".pyi"):
+            continue
+        out[name] = text
+    if top_ns:
+        out["aa"] = None
+    return out
+
+
+GIT_WORKER = r"""
+import json, os, sys, logging
+import griffe
+logging.getLogger("griffe").setLevel(logging.CRITICAL)
+jobs = json.load(sys.stdin)
+out = []
+for job in jobs:
+    os.chdir(job["cwd"])
+    try:
+        top = griffe.load_git("aa", ref="v1", repo=job["repo"], search_paths=[job["search"]], allow_inspection=False)
+        while top.parent is not None:
+            top = top.parent
+        mods = {}
+        def rec(m):
+            try:
+                mods[m.path] = None if isinstance(m.filepath, list) else m.source
+            except Exception as e:
+                mods[m.path] = "unreadable: " + type(e).__name__
+            for v in m.members.values():
+                if not v.is_alias and v.is_module:
+                    rec(v)
+        rec(top)
+        out.append(["ok", mods])
+    except Exception as e:
+        out.append(["err", type(e).__name__ + ": " + str(e)[:200]])
+json.dump(out, sys.stdout)
+"""
+
+
+def load_git_stream(ctx, n_projects, tag="git"):
+    from harness.common import framework
+    scratch = ctx.scratch / tag
+    (scratch / "tmp").mkdir(parents=True, exist_ok=True)
+    (scratch / "elsewhere").mkdir(parents=True, exist_ok=True)
+    genv = dict(os.environ, GIT_AUTHOR_NAME="verif", GIT_AUTHOR_EMAIL="verif@example.com", GIT_COMMITTER_NAME="verif",
+                GIT_COMMITTER_EMAIL="verif@example.com", GIT_CONFIG_GLOBAL="/dev/null", GIT_CONFIG_SYSTEM="/dev/null", TMPDIR=str(scratch / "tmp"))
+    git = lambda repo, *a: subprocess.run(["git", "-C", str(repo), *a], capture_output=True, text=True, env=genv, check=True).stdout
+    jobs, meta = [], []
+    for k in range(n_projects):
+        tagged, work, search, flat = gen_git_project(ctx.rng)
+        repo = scratch / f"r{k}"
+        repo.mkdir()
+        git(repo, "init", "-q")
+        for f, text in tagged.items():
+            (repo / f).parent.mkdir(parents=True, exist_ok=True)
+            (repo / f).write_text(text)
+        git(repo, "add", "-A")
+        git(repo, "commit", "-q", "-m", "v1")
+        git(repo, "tag", "v1")
+        for f, text in tagged.items():            # the authority: what the reference holds
+            if git(repo, "show", f"v1:{f}") != text:
+                ctx.tie_failure("harness", "git show", f, None)
+        for f, text in work.items():              # the working tree moves on (uncommitted and committed changes)
+            if text is None:
+                (repo / f).unlink()
+            else:
+                (repo / f).parent.mkdir(parents=True, exist_ok=True)
+                (repo / f).write_text(text)
+        if ctx.rng.random() < 0.5:
+            git(repo, "add", "-A")
+            git(repo, "commit", "-q", "-m", "later")
+        exp = expected_git_modules(tagged, search)
+        for cwd_kind, cwd in (("project-root", repo), ("package-parent", repo if flat else repo / "src"), ("elsewhere", scratch / "elsewhere")):
+            jobs.append({"cwd": str(cwd), "repo": str(repo), "search": search})
+            meta.append(({"tagged": tagged, "working_tree": work, "search": search, "cwd": cwd_kind}, exp))
+    env = dict(genv, PYTHONPATH=f"{framework.REPO}/src", PYTHONDONTWRITEBYTECODE="1")
+    p = subprocess.run([sys.executable, "-c", GIT_WORKER], input=json.dumps(jobs), capture_output=True, text=True, timeout=1200, env=env)
+    if p.returncode != 0:
+        ctx.tie_failure("harness", "load_git worker", p.stderr[-800:], None)
+        return
+    for (desc, exp), res in zip(meta, json.loads(p.stdout)):
+        ctx.case(desc, True)
+        ctx.observe("stream", "load_git")
+        ctx.observe("load_git", f"cwd={desc['cwd']}:{res[0]}")
+        if res[0] != "ok" or res[1] != exp:
+            ctx.property_failure({"case": desc, "check": "load-git"},
+                                 {"cwd": desc["cwd"], "loaded {module: source}": res[1] if res[0] == "ok" else res,
+                                  "the reference holds {module: source}": exp}, finding=None)
+    subprocess.run(["rm", "-rf", str(scratch)])
+
+
+# ---------------------------------------------------------------------------------------------------------------
 # The check
 # ---------------------------------------------------------------------------------------------------------------
 LEVEL_TEXT = ("Coq theorems (22, all closed under the global context) over an executable model of finder.py / loader.py discovery, for all layouts, search-path lists "
@@ -1833,6 +1974,7 @@ def explore(ctx):
     history_stream(ctx, ctx.budget(40, 400), model, "hist")
     symlink_stream(ctx, ctx.budget(60, 600))
     process_history_stream(ctx, ctx.budget(24, 240), model=model)
+    load_git_stream(ctx, ctx.budget(10, 80))
     if not ctx.quick:
         sample = []
         for c in targeted_cases()[:20]:
@@ -1856,6 +1998,9 @@ def search(ctx):
     if ctx.prop_failures:
         return
     process_history_stream(ctx, 24, "sproc")
+    if ctx.prop_failures:
+        return
+    load_git_stream(ctx, 12, "sgit")
     if ctx.prop_failures:
         return
     for k, cases in enumerate(batches):
